@@ -84,6 +84,7 @@ KANI_GROUPS = {
             dict(name="vk_sequence_apply_is_stream_odd", kind="bounded(Change(1), 3 inputs then a 1-element chunk, in -8..=8)", timeout=300, props=["C09"], witness_units=["combinators"], witness_fns=["seq_apply", "apply"]),
             dict(name="vk_method_new_apply_is_stream", kind="bounded(Change(1), 4 inputs in -8..=8)", timeout=300, props=["C09"], witness_units=["combinators"], witness_fns=["new_apply", "seq_apply"]),
             dict(name="vk_method_new_fn_is_stream", kind="bounded(Change(1), 3 inputs in -8..=8)", timeout=300, props=["C09"], witness_units=["combinators"], witness_fns=["new_fn"]),
+            dict(name="vk_conv_l3_weight_profile", kind="bounded(Conv over two 3-weight kernels, one with a zero last weight; 3 steps, integer inputs in -8..=8)", timeout=600, witness_timeout=240, props=["C15", "C02"], witness_units=["conv"], witness_fns=["Conv::"]),
             dict(name="vk_vidya_no_overshoot_3steps", kind="bounded(Vidya(3), 3 steps over {0,1,2})", timeout=600, props=["C12"], witness_units=["derived_window"], witness_fns=["Vidya::"]),
             dict(name="vk_rsi_sma_no_panic_4steps", kind="bounded(RSI<SMA(3)>, 4 steps, integer closes)", timeout=900, tier="thorough", props=["C10", "C12"], witness_units=["ind_rsi"]),
         ]),
@@ -421,7 +422,7 @@ PROPS["C18"] = dict(
 )
 
 PROPS["C15"] = dict(
-    verus=["ma_laws", "ma_laws2", "sma", "wma", "ema", "smm", "ma_instance", "ma_dispatch", "compose_ma", "swma", "derived_window", "lin_reg", "conv", "vwma"],
+    verus=["ma_laws", "ma_laws2", "sma", "wma", "ema", "smm", "ma_instance", "ma_dispatch", "compose_ma", "swma", "derived_window", "lin_reg", "conv", "vwma"], kani=["witness"],
     claim=("Lemmas over the definitions the code is tied to by C02/C03: SMA and WMA (weights (i+1)/(n(n+1)/2), non-negative, summing to 1) are "
            "affine-equivariant (any a, b, negative a included), range-preserving and additive (superposition) for every length; the EMA recurrence is "
            "affine-equivariant, range-preserving (0 < alpha <= 1) and additive step by step, which carries over to DMA/TMA/RMA/WSMA by composition. "
